@@ -5,6 +5,7 @@
 -/
 import Edn.Proofs.Number
 import Edn.Proofs.NumberReader
+import Edn.Proofs.NumberSound
 
 namespace Edn.Properties.C04
 open Edn.Model Edn.Proofs
@@ -70,6 +71,20 @@ theorem reads_ratio (cfg : Cfg) (hc : cfg.clj = true) (sg nd dd rest : Bytes) (n
     (hzero : nd = [0x30] → Edn.Spec.natOfDigits dd ≤ 9223372036854775807) :
     readNumber cfg (sg ++ nd ++ [0x2F] ++ dd ++ rest) = .ok (Edn.Spec.ratioValue cfg neg nd dd) rest :=
   readNumber_ratio cfg hc sg nd dd rest neg hs hn hd ht hzero
+
+/-- Exactness for the core configuration: started where the dispatcher sends a number (a digit, or
+    a sign followed by a digit), the number reader returns a payload and a continuation point
+    **iff** the bytes consumed are a number token of core EDN (`Edn.Spec.CoreNum`: decimal integer
+    in/out of the 64-bit range, `N`, float, `M`) denoting that payload and the continuation is the
+    end of the input or a terminator.  Nothing else is accepted, nothing is read differently. -/
+theorem core_number_reader_is_the_grammar (s rest : Bytes) (v : NumVal)
+    (hstart : ∃ c t, s = c :: t ∧ (is09 c = true ∨ ((c = 0x2B ∨ c = 0x2D) ∧ ∃ nx t', t = nx :: t' ∧ is09 nx = true))) :
+    readNumber Cfg.core s = .ok v rest ↔
+      ∃ tok, s = tok ++ rest ∧ Edn.Spec.CoreNum Cfg.core tok v ∧ Edn.Spec.TermStart rest :=
+  readNumber_core_iff s rest v hstart
+
+/-- non-vacuity: `-12 ` is the integer -12, read up to the space -/
+example : readNumber Cfg.core "-12 ".toUTF8.toList = .ok (.int (-12)) " ".toUTF8.toList := by decide +kernel
 
 example : parseInt64 Cfg.core "9223372036854775807".toUTF8.toList 10 false = some 9223372036854775807 := by decide +kernel
 example : parseInt64 Cfg.core "9223372036854775808".toUTF8.toList 10 false = none := by decide +kernel
